@@ -767,7 +767,11 @@ def render_dml_query(statement, dialect):
         def render_literal_value(self, value, type_):
 
             if isinstance(value, (str, dt.date, dt.datetime, dt.timedelta)):
-                return "'{}'".format(str(value).replace("'", "''"))
+                value = str(value).replace("'", "''")
+                if self.dialect.name == 'mysql':
+                    # MySQL reads a backslash inside a literal as an escape character
+                    value = value.replace('\\', '\\\\')
+                return "'{}'".format(value)
 
             return super(LiteralCompiler, self).render_literal_value(value, type_)
 
@@ -779,7 +783,11 @@ def render_ddl_query(statement, dialect):
 
         def render_literal_value(self, value, type_):
             if isinstance(value, (str, dt.date, dt.datetime, dt.timedelta)):
-                return "'{}'".format(str(value).replace("'", "''"))
+                value = str(value).replace("'", "''")
+                if self.dialect.name == 'mysql':
+                    # MySQL reads a backslash inside a literal as an escape character
+                    value = value.replace('\\', '\\\\')
+                return "'{}'".format(value)
 
             return super(LiteralCompiler, self).render_literal_value(value, type_)
 
